@@ -478,18 +478,14 @@ impl Session<'_> {
         };
         use ServerState::*;
         match self.server_state.get() {
-            Some(DoesNotExist) => match self.id {
-                CurrentSessionId::NewlyGenerated(id) | CurrentSessionId::Existing(id) => {
-                    if create_if_empty {
-                        self.store
-                            .create(&id, SessionRecordRef::empty(fresh_ttl))
-                            .await?;
-                    }
+            Some(DoesNotExist) => {
+                // There is no record under the old id (if any), so there is nothing to rename.
+                if create_if_empty {
+                    self.store
+                        .create(&self.id.new_id(), SessionRecordRef::empty(fresh_ttl))
+                        .await?;
                 }
-                CurrentSessionId::ToBeRenamed { .. } => {
-                    // Nothing to do.
-                }
-            },
+            }
             None => {
                 match self.id {
                     CurrentSessionId::Existing(_) => {
@@ -635,6 +631,21 @@ impl Session<'_> {
             });
             new_cell_with(new_state)
         };
+        // The store is now in sync with the in-memory state: the record, if there is one,
+        // lives under the new id. Advance the id, so that syncing again (e.g. in `finalize`,
+        // after an explicit `sync`) doesn't try to rename or create the record a second time.
+        let record_exists = matches!(self.server_state.get(), Some(Unchanged { .. }));
+        match self.id {
+            CurrentSessionId::ToBeRenamed { new, .. } => {
+                self.id = CurrentSessionId::Existing(new);
+            }
+            CurrentSessionId::NewlyGenerated(id) => {
+                if record_exists {
+                    self.id = CurrentSessionId::Existing(id);
+                }
+            }
+            CurrentSessionId::Existing(_) => {}
+        }
         Ok(())
     }
 
